@@ -726,6 +726,48 @@ def growth_chain(q: int, steps: int) -> bool:
     return H.done(seen <= q and rsize <= q)
 
 
+# =============================================================== validation of the reference pieces
+def validate():
+    bad = []
+    # size formulas used as the "true size of the product" in the repetition conditions
+    for n in (0, 1, 4, 8, 40, 400):
+        if sys.getsizeof('x' * n) != sys.getsizeof('') + n:
+            bad.append('str size model wrong for length %d' % n)
+        if sys.getsizeof(tuple(range(n))) != sys.getsizeof(()) + 8 * n:
+            bad.append('tuple size model wrong for length %d' % n)
+    # reference census against hand-computed cases
+    if limited_lengths(utils.FrozenDict({'a': (1, 2, 3), 'b': frozenset([1])})) != [2, 3, 1]:
+        bad.append('limited_lengths reference wrong on a mapping')
+    if sorted(limited_lengths({1: 'x'}.items())) != [1, 2]:
+        bad.append('limited_lengths reference wrong on an items view')
+    if W.census_max_len({'a': [1, 2, (3, 4, 5)], 'b': {1, 2}}) != 3:
+        bad.append('census_max_len wrong')
+    # instrumented source and the observations of DESIGN.md appendix A (limitIterators = 10) that hold on every tree
+    eng = engine_with(limitIterators=10)
+    for text, want in [('$s.take(3)', [0, 1, 2]), ('[$s].flatten().take(3)', [0, 1, 2]), ('5 in $s', True), ('$h.len()', 20)]:
+        src = W.Source('int', budget=40)
+        try:
+            got = evaluate(text, eng, s=src, h=tuple(range(20)))
+        except Exception as e:
+            got = e
+        if got != want:
+            bad.append('limitIterators=10: %s -> %r, expected %r' % (text, got, want))
+        if src.pulls > 11:
+            bad.append('limitIterators=10: %s pulled %d items' % (text, src.pulls))
+    for text in ['$s', 'list($s)', '$s.toList()', '$s.sum()', '$s.orderBy($)', '[range(11)]', '{a => range(11)}']:
+        src = W.Source('int', budget=40)
+        try:
+            evaluate(text, eng, s=src)
+            bad.append('limitIterators=10: %s did not raise CollectionTooLargeException' % text)
+        except yexc.CollectionTooLargeException:
+            pass
+        except Exception as e:
+            bad.append('limitIterators=10: %s raised %r' % (text, e))
+    if len(all_cases()) < 100:
+        bad.append('registry sweep found only %d (definition, parameter) cases' % len(all_cases()))
+    return bad[:5]
+
+
 # =============================================================== conditions
 def conditions(tier, seed):
     q = tier == 'quick'
